@@ -320,6 +320,62 @@ def r5(run):
             run.floor("400 responses in %s" % fn, n400, 1, hb.sp)
 
 
+BODY_ITEM_FNS = ("http_body_util::BodyExt::frame", "futures_util::stream::stream::StreamExt::next", "tokio_stream::stream_ext::StreamExt::next",
+                 "http_body_util::BodyExt::collect")
+EFFECT_FNS = ("cacache::put::Writer::commit", "cacache::put::SyncWriter::commit", C.APPEND, C.INSERT_FRAME)
+
+
+def r8(run):
+    """A request body that fails part-way must not be treated as a body that ended: from the error case of every body
+    item, no CAS commit / append / insert is reachable (the request fails, the store is untouched)."""
+    facts = run.facts
+    n = 0
+    for b in facts.all_bodies():
+        if not (b.def_.startswith(API) and b.is_coroutine) or b.file() != "src/api.rs":
+            continue
+        items = [c for c in b.calls() if c.bb in b.live_blocks() and c.fn in BODY_ITEM_FNS and
+                 ("hyper::body::incoming::Incoming" in c.fnx or "BodyDataStream" in c.fnx or "Incoming" in c.fnx)]
+        if not items:
+            continue
+        run.touch(b)
+        fn = facts.enclosing_fn(b)
+        # effects in this body: direct, or through a crate-local callee that reaches one
+        effects = [c for c in b.calls() if c.bb in b.live_blocks() and (c.fn in EFFECT_FNS)]
+        for it in items:
+            n += 1
+            err_targets, tested = [], False
+            for bb, si in b.switches():
+                if si["kind"] != "variant":
+                    continue
+                cond = si["cond"]
+                if cond[0] == "call" and cond[1].fn.endswith("Future::poll"):
+                    continue
+                # the switch must be on the body item's own Result: item, `item?`, or the payload of `Some(item)`
+                x = strip(cond)
+                if x[0] == "call" and x[1].fn == "core::ops::try_trait::Try::branch":
+                    x = strip(x[2][0])
+                if x[0] == "field" and x[1][0] == "downcast" and x[1][2] == "Some":
+                    x = strip(x[1][1])
+                x = q.unawait(x)
+                if not (x[0] == "call" and q.same_call(x[1], it)):
+                    continue
+                if si.get("adt") and "option::Option" in si["adt"]:
+                    continue   # the Some/None test of the item, not its Result
+                for (t, lab, m) in si["edges"]:
+                    ms = m if isinstance(m, tuple) else (m,)
+                    if any(x in ("Err", "Break") for x in ms):
+                        tested = True
+                        err_targets.append(t)
+            reach = b.reachable_blocks(err_targets) if err_targets else set()
+            leaked = [c.sp for c in effects if c.bb in reach]
+            # an Ok/200 response built after the error case is also a leak
+            oks = [rb for (rb, e, raw) in b.return_defs() if rb in reach and strip(e)[0] == "agg" and strip(e)[1].get("variant") == "Ok"]
+            run.ob("%s|body-error|%s" % (fn, it.fn.split("::")[-1]), tested and not leaked and not oks, it.sp,
+                   "a failing body chunk (%s) never reaches a CAS commit, an append or an Ok result in %s (error case examined: %s; reachable effects: %s; Ok returns: %d)" % (
+                       it.fn.split("::")[-1], fn, tested, leaked, len(oks)), reason="failed-request-changes-store")
+    run.floor("request-body item sites in the API layer", n, 2)
+
+
 def r7(run):
     """Both renderings of GET / serialise the frame itself with serde_json (same fields, same frame)."""
     hb = None
@@ -365,6 +421,7 @@ RULES = [
     ("R-C13-3", "every payload field of every Routes variant is forwarded, and every handler parameter reaches a store operation or branch", r3),
     ("R-C13-4", "listener_loop: one spawned task per connection, the loop ends only on accept errors", r4),
     ("R-C13-5", "append / import are reached only through the Ok edge of the request decoding; nothing after a 400", r5),
+    ("R-C13-8", "a request body that fails part-way never leads to a CAS commit, an append or a success result", r8),
     ("R-C13-7", "GET /: both renderings serialise the whole frame; the stream is Store::read(options) unmodified and unfiltered", r7),
     ("R-C13-6", "route specificity: each catch-all arm is dominated by the false edge of every more specific test of its method", r6),
 ]
